@@ -25,7 +25,7 @@ CHECKS = {
          "DESIGN.md 4.9, 5 (C03)"),
  "C05": ("exploration",
          "TLA+ specification of the supports (exact interval algebra over rationals), independence over coordinates and parameter broadcasting of the named families (Families.tla) model-checked with TLC; every (family, parameters, point) state replayed into the real distribution and compared with the textbook log-density evaluated in NumPy; accessors, MultivariateNormal and mixtures against their textbook formulas",
-         "Density, accessor and mixture clauses only. TLC decides exactly which coordinates are inside / on the edge of / outside the support for every state (9 families x scalar/vector broadcasting of loc, scale, df x points), so log_prob must be -inf exactly when a coordinate is outside, never NaN (edges included), and otherwise equal the textbook term summed over coordinates; swapped loc/scale, rate for 1/rate, maxval for maxval-minval, a wrong sign or a mean instead of a sum all change the number.",
+         "Density, accessor and mixture clauses only. TLC decides exactly which coordinates are inside / on the edge of / outside the support for every state (9 families x scalar/vector broadcasting of loc, scale, df x points), so log_prob must be -inf exactly when a coordinate is outside, never NaN (edges included), and otherwise equal the textbook term summed over coordinates; swapped loc/scale, rate for 1/rate, maxval for maxval-minval, a wrong sign or a mean instead of a sum all change the number. Far points (+-40, +-1e4) are in the TLC grid. After construction every trainable leaf of every named family is moved and the density is compared with the textbook density at the accessor values read back. Mixtures: components 1000 sigma apart, every draw next to a single component, component frequencies = weights at 8 sigma.",
          "NOT DECIDED: the clause 'samples follow that density' needs a goodness-of-fit statistic, which this technique cannot supply (only the structural fact sample = loc + scale * standard draw for the same key is checked). log, exp, lgamma are evaluated with math / NumPy in float64 (trusted base; the formulas were validated against SciPy once at build time).",
          "DESIGN.md 5 (C05), 6"),
  "C06": ("model_checking",
@@ -35,17 +35,17 @@ CHECKS = {
          "DESIGN.md 4.7, 5 (C06)"),
  "C07": ("model_checking",
          "TLA+ specification of the elementary bijections over exact rationals (Elementary.tla + Rat.tla) model-checked with TLC; every (configuration, point) state is replayed into the real class and compared with TLC's exact rational; transcendental leaves compared with the documented formula evaluated in NumPy",
-         "TLC checks on a rational grid that the rational-quadratic spline interpolates its knots, has the stated knot derivatives, is the identity outside, is increasing and that forward and inverse select the same piece at every knot and both interval ends (the unclamped bin lookup of the pinned commit is refuted at the lower end); every state (spline at knots / ends / midpoints / quarter points / outside, Affine incl. negative scales and broadcasting, TriangularAffine lower and upper, every permutation of size <= 4 also as a 2x2 array, LeakyTanh branch at +-max_val) is an implementation test with an exact expected value, which pins consistently-wrong-in-both-directions implementations that round-trip and autodiff checks cannot see.",
+         "TLC checks on a rational grid that the rational-quadratic spline interpolates its knots, has the stated knot derivatives, is the identity outside, is increasing and that forward and inverse select the same piece at every knot and both interval ends (the unclamped bin lookup of the pinned commit is refuted at the lower end); every state (spline at knots / ends / midpoints / quarter points / outside, Affine incl. negative scales and broadcasting, TriangularAffine lower and upper, every permutation of size <= 4 also as a 2x2 array, LeakyTanh branch at +-max_val) is an implementation test with an exact expected value, which pins consistently-wrong-in-both-directions implementations that round-trip and autodiff checks cannot see. LeakyTanh with max_val 14 / 19.5 / 20 at points 1e6 and 1e8 beyond +-max_val (reference slope cosh(max_val)^-2).",
          "exp, softplus, tanh, log are evaluated with NumPy/math in float64 for the transcendental leaves (trusted base). Spline knots are installed exactly with eqx.tree_at. The planar constraint is taken from the layer's public get_act_scale (the code's m(x) = -1 + log(1 + softplus(x)) differs from the cited paper's -1 + softplus(x); both satisfy w.u > -1).",
          "DESIGN.md 4.8, 5 (C07)"),
  "C08": ("model_checking",
          "TLA+ specification of the combinators with exact integer semantics (Combinators.tla: arrays as C-order integer sequences, dyadic affine / additive-condition / permutation leaves, a builder machine over a shape lattice) model-checked with TLC; every program TLC prints is built from the real classes and all four methods compared bit for bit with TLC's integers",
-         "TLC enumerates every composition the builder machine grows (depth 1 exhaustively in quick, depth 2 = 1.8e5 programs in thorough, plus simulated depth-3 programs) over leaf kinds x shape lattice x every valid axis incl. negative ones x Partial index kinds x mapped/broadcast Vmap x condition axes, and checks DeclaredShapeIsSemantic, RoundTrip, LogDetsOpposite, MergeChainsSame, InvertSwaps on each; each program is an implementation test whose expected outputs, log2-dets and shapes TLC computed from the definitions (like jnp.stack / slice by slice / only the indexed entries). The shape formulas as found at the pinned commit are refuted by TLC (Stack / Vmap negative axes; repaired by fix: commits).",
+         "TLC enumerates every composition the builder machine grows (depth 1 exhaustively in quick, depth 2 = 1.8e5 programs in thorough, plus simulated depth-3 programs) over leaf kinds x shape lattice x every valid axis incl. negative ones x Partial index kinds x mapped/broadcast Vmap x condition axes, and checks DeclaredShapeIsSemantic, RoundTrip, LogDetsOpposite, MergeChainsSame, InvertSwaps on each; each program is an implementation test whose expected outputs, log2-dets and shapes TLC computed from the definitions (like jnp.stack / slice by slice / only the indexed entries). The shape formulas as found at the pinned commit are refuted by TLC (Stack / Vmap negative axes; repaired by fix: commits). Exact unit-triangular affine leaves (matrix set after construction), strided Partial slices and vectorised conditional leaves are part of the builder.",
          "Leaf parameters are installed exactly (Affine scale replaced by a power-of-two array via eqx.tree_at, as its docstring documents); dyadic float64 arithmetic is exact, so equality is bit-for-bit; log-dets are compared with log2-det * ln 2 to 1e-12.",
          "DESIGN.md 4.6, 5 (C08)"),
  "C17": ("exploration",
          "TLA+ specification of the contrastive index discipline and the ELBO key discipline (Losses.tla) model-checked with TLC; recorded (x-tag, condition-tag) pairs of the real ContrastiveLoss validated by TLC against Trace_Losses.tla; the other estimators compared with their defining formulas evaluated through the distribution's public methods",
-         "Contrastive: every (batch size 2..8, n_contrastive 1..batch-1) run on a tagged user-supplied distribution is a trace TLC accepts only if, for every row, the row itself is evaluated exactly once (the positive) and exactly n distinct other rows are used; the value must equal the softmax cross-entropy recomputed from the recorded sets and be non-negative. ML and ELBO: equality with -mean log_prob and with the mean over sample_and_log_prob(key, (n,)); same ELBO value with stick-the-landing; STL gradient = path-only surrogate; plain - STL gradient = mean score term (a forgotten stop_gradient is about 1e7 above the tolerance).",
+         "Contrastive: every (batch size 2..8, n_contrastive 1..batch-1) run on a tagged user-supplied distribution is a trace TLC accepts only if, for every row, the row itself is evaluated exactly once (the positive) and exactly n distinct other rows are used; the value must equal the softmax cross-entropy recomputed from the recorded sets and be non-negative. ML and ELBO: equality with -mean log_prob and with the mean over sample_and_log_prob(key, (n,)); same ELBO value with stick-the-landing; STL gradient = path-only surrogate; plain - STL gradient = mean score term (a forgotten stop_gradient is about 1e7 above the tolerance). Contrastive runs alternate unit-scale rows with rows spread by 8 / 40 / 300 (logit gaps of thousands of nats).",
          "Exploration level: the numeric estimator identities are decided by running the code; TLC decides the index discipline of the recorded pairs. The tagged distribution and prior are user-defined AbstractDistribution subclasses.",
          "DESIGN.md 4.10, 5 (C17)"),
  "C18": ("exploration",
@@ -70,12 +70,12 @@ CHECKS = {
          "DESIGN.md 4.10, 5 (C11)"),
  "C12": ("model_checking",
          "TLA+ machine over wrapper trees (Unwrap.tla: build / unwrap / train phases) model-checked with TLC; every tree TLC prints is built from the real wrapper classes and flowjax.wrappers.unwrap compared with TLC's term; per-leaf digest traces of both real training loops validated by TLC against Trace_Unwrap.tla",
-         "TLC enumerates every wrapper tree up to 5 (quick) / 7 (thorough) nodes over the five wrapper kinds, containers and 0-2 levels of vmapped construction, checks ExactlyOnce / InnerFirst for every order the recursion may take and FrozenBitIdentical under arbitrary optimiser steps; each tree is an implementation test (value of unwrap = TLC's term, idempotence, no wrapper left, parameter count of the ravelled constructor = TLC's trainable set) and, for a third of them, a training run of either loop with the counting optimiser, SGD(lr=1e3) or Adam whose digests TLC validates. Real flows with frozen subsets and method transparency (m vs unwrap(m), bit-identical) complete it.",
+         "TLC enumerates every wrapper tree up to 5 (quick) / 7 (thorough) nodes over the five wrapper kinds, containers and 0-2 levels of vmapped construction, checks ExactlyOnce / InnerFirst for every order the recursion may take and FrozenBitIdentical under arbitrary optimiser steps; each tree is an implementation test (value of unwrap = TLC's term, idempotence, no wrapper left, parameter count of the ravelled constructor = TLC's trainable set) and, for a third of them, a training run of either loop with the counting optimiser, SGD(lr=1e3) or Adam whose digests TLC validates. Real flows with frozen subsets and method transparency (m vs unwrap(m), bit-identical) complete it. Frozen components are also followed through public accessors (Chain[i], Chain[a:b], .bijections, Invert.bijection, Transformed.bijection, merge_transforms) into new models, and through histories of two or three training calls on the returned model (either loop, either order).",
          "exp, softplus, tanh, where, norm are evaluated with NumPy in float64 when interpreting TLC's term (trusted base). Leaves are identified by value (distinct by construction). WeightNormalization constructed under filter_vmap cannot be built in this environment (equinox 0.13.8) and is excluded from the batched cases.",
          "DESIGN.md 4.4, 5 (C12)"),
  "C13": ("model_checking",
          "Constructor validity (Valid) and accepted shapes (SemShape / SemCond) of Combinators.tla model-checked with TLC; for every program TLC prints the real constructor must accept iff Valid, and every wrong shape of a lattice must make all four methods raise; every concrete bijection class (found by introspection) and the distribution methods likewise",
-         "TLC generates valid compositions and the documented incompatibilities (mismatched shapes in Chain / Concatenate / Stack, mismatched condition shapes, a Partial index set that does not fit, a Reshape that changes the element count) with their expected verdicts; the harness then tries, for each program and each real class, every shape NumPy would silently broadcast (scalar, size-1 axis, extra leading/trailing axis, transposed, flattened, one extent off), a missing and a mis-shaped condition on all four methods (about 1.3e4 rejected calls in quick).",
+         "TLC generates valid compositions and the documented incompatibilities (mismatched shapes in Chain / Concatenate / Stack, mismatched condition shapes, a Partial index set that does not fit, a Reshape that changes the element count) with their expected verdicts; the harness then tries, for each program and each real class, every shape NumPy would silently broadcast (scalar, size-1 axis, extra leading/trailing axis, transposed, flattened, one extent off), a missing and a mis-shaped condition on all four methods (about 1.3e4 rejected calls in quick). Invalid compositions include parts of lower rank whose extents agree. Distributions that are not Transformed (StandardNormal of rank 1 and 2, user-defined ones) and user-defined AbstractBijection subclasses are examined like the library classes.",
          "Any exception counts as rejection. Only the incompatibilities the property names are demanded of constructors; index values are kept in range (JAX clamps out-of-range integer indices by design).",
          "DESIGN.md 4.6, 5 (C13)"),
  "C14": ("exploration",
@@ -85,12 +85,12 @@ CHECKS = {
          "DESIGN.md 5 (C14)"),
  "C15": ("model_checking",
          "TLA+ state machine of fit_to_data (FitToData.tla, Batching.tla) model-checked with TLC; recorded event traces of the real fit_to_data validated against Trace_FitToData.tla by TLC; TLC-enumerated helper cases replayed into get_batches/train_val_split",
-         "TLC exhausts the data-flow model (every split, every batch choice, symmetric rows, every batch size) for the clauses of C15 as invariants; every recorded execution of the real loop over a grid of (n, batch_size, val_prop, condition, epochs) -- scripted runs with tagged rows and real training runs of flows with the library's own loss and real optimisers -- is accepted or rejected by TLC against the same clauses at every step; six corruptions of a recording must each be rejected at the clause they violate (binding self-test). Right level: the property is a statement about every history of a loop with state.",
+         "TLC exhausts the data-flow model (every split, every batch choice, symmetric rows, every batch size) for the clauses of C15 as invariants; every recorded execution of the real loop over a grid of (n, batch_size, val_prop, condition, epochs) -- scripted runs with tagged rows and real training runs of flows with the library's own loss and real optimisers -- is accepted or rejected by TLC against the same clauses at every step; six corruptions of a recording must each be rejected at the clause they violate (binding self-test). Right level: the property is a statement about every history of a loop with state. A user's own loss on integer-typed ids (beyond 2^24 / 2^53) with 1-D, 2-D and 3-D data arrays: every row handed to the loss is a row of the data set, of its own type and event shape, with its own condition row.",
          "Rows are identified by an index tag; the loss function, optimiser and data are supplied through the public API (no source hooks). The P layer assumes the documented epoch structure (training pass then validation pass). Bounded: n <= 60, 1-4 epochs.",
          "DESIGN.md 4.1, 5 (C15)"),
  "C16": ("model_checking",
          "TLA+ state machines FitToData.tla / FitVariational.tla model-checked with TLC over all loss orderings; every terminal state replayed into the real loops (scripted loss + counting optimiser); the runs' event traces validated by TLC against Trace_FitToData.tla / Trace_FitVariational.tla",
-         "TLC visits every ordering of L distinct losses x max_patience x max_epochs/steps x return_best (L=5 quick, L=7 thorough), checks the stopping and selection clauses as invariants and termination under fairness; each terminal state is an implementation test whose expected result TLC computed; traces of those, of randomised longer runs and of real training runs (returned parameters identified by digest, validation losses as ranks) are validated step by step.",
+         "TLC visits every ordering of L distinct losses x max_patience x max_epochs/steps x return_best (L=5 quick, L=7 thorough), checks the stopping and selection clauses as invariants and termination under fairness; each terminal state is an implementation test whose expected result TLC computed; traces of those, of randomised longer runs and of real training runs (returned parameters identified by digest, validation losses as ranks) are validated step by step. A float32 subprocess trains with several validation batches per epoch whose epoch means differ by less than an ulp or tie; NaN losses after the first step occur in a quarter of the randomised variational runs (minimum over the numbers).",
          "Losses are scripted as a function of the number of optimiser updates (counting optimiser makes the returned parameter value identify the epoch/step). Ties between losses are outside the property's quantifier: the P layer accepts any argmin.",
          "DESIGN.md 4.1, 4.2, 5 (C16)"),
 }
